@@ -1,3 +1,4 @@
 SPECIFICATION Spec
+CONSTANT UndeclaredAborts = FALSE
 INVARIANTS VerdictIsContract CallsAreExpected
 CHECK_DEADLOCK FALSE
